@@ -1,5 +1,6 @@
 import Driver.Common
 import Driver.MerkleArea
+import Driver.ComposerArea
 /- `astria-driver <trace-file>`: replays an implementation trace through the Lean model of
    the area named by the first token of the first line; prints DISAGREE / MONITOR / STAT. -/
 def main (args : List String) : IO UInt32 := do
@@ -13,6 +14,7 @@ def main (args : List String) : IO UInt32 := do
     let area := (Driver.words lines[0]!).headD ""
     let rep ← match area with
       | "merkle" => pure (Driver.MerkleArea.run lines)
+      | "composer" => pure (Driver.ComposerArea.run lines)
       | _ => do IO.println s!"unknown area {area}"; return 2
     rep.print
     return 0
